@@ -345,6 +345,7 @@ func run(e *ev.Env) {
 	en.masked()
 	en.notDoc()
 	en.modeSeq()
+	en.multiBind()
 	en.afterFail() // last: see followup.go
 
 	e.Stat("trips_total", en.g.trips())
